@@ -28,7 +28,9 @@ def validate_check_digit(card_number: str) -> str:
     :return: None
     :raises AssertionError: Check digit is not valid
     """
-    assert calculate_check_digit(card_number[0:-1]) == card_number[-1]
+    # explicit test rather than an assert statement: asserts are removed by ``python -O``
+    if calculate_check_digit(card_number[0:-1]) != card_number[-1]:
+        raise AssertionError('Check digit is not valid')
 
 
 def add_check_digit(card_number: str) -> str:
